@@ -11,7 +11,7 @@ import ChessVerif.Props.C11
 import ChessVerif.Lemmas.KingMoves
 import ChessVerif.Lemmas.CastleSafe
 import ChessVerif.Lemmas.GenShapeWf
-import ChessVerif.Lemmas.WfStep
+import ChessVerif.Lemmas.SpecNodup
 namespace Chess.Props
 
 /-- the rules-level move a packed engine move denotes in position p -/
@@ -303,6 +303,50 @@ theorem C01_reachable (ms : List Spec.SMove) (h : LegalGame startSPos ms) (p : P
     (hp : Chess.absPos p = ms.foldl Spec.apply startSPos) (code : Nat) :
     code ∈ genMoves p ↔ ∃ m, m ∈ Spec.legalMoves (Chess.absPos p) ∧ codeOf (Chess.absPos p) m = code :=
   exact_all p (by rw [hp]; exact wf_reachable ms h) code
+
+/-- perft by the rules: the number of lines of d legal moves -/
+def perftSpec : Nat → Spec.SPos → Nat
+  | 0, _ => 1
+  | d + 1, s => ((Spec.legalMoves s).map (fun m => perftSpec d (Spec.apply s m))).sum
+
+/-- perft of the model: recursion over the generated moves through do_move (the engine's `perft`; that its make/unmake loop returns
+    to the same position after each branch is C03) -/
+def perftModel (T : ZTable) : Nat → Position → Nat
+  | 0, _ => 1
+  | d + 1, p => ((genMoves p).map (fun c => perftModel T d (doMove T p c).1)).sum
+
+/-- **perft agrees with the rules at every depth**: on every well-formed position the model's perft — generated moves, do_move — counts
+    exactly the lines of legal moves the rules allow.  One theorem through C01 (the generated list is a permutation of the codes of the
+    legal moves: `exact_all`, `C01_no_duplicates`, `legalMoves_nodup`, `decode_codeOf`), C02 (do_move of a code = the rules' apply) and
+    the invariance of well-formedness (`wf_apply`). -/
+theorem C01_perft (T : ZTable) (d : Nat) : ∀ (p : Position), PlyOK p → Spec.wf (Chess.absPos p) = true → p.halfmove + d < 65535 →
+    perftModel T d p = perftSpec d (Chess.absPos p) := by
+  induction d with
+  | zero => intro p _ _ _; rfl
+  | succ d ih =>
+    intro p hp hwf hh
+    unfold perftModel perftSpec
+    -- the generated list is a permutation of the codes of the legal moves
+    have hperm : List.Perm (genMoves p) ((Spec.legalMoves (Chess.absPos p)).map (codeOf (Chess.absPos p))) := by
+      rw [List.perm_ext_iff_of_nodup (C01_no_duplicates p hwf)]
+      · intro c
+        rw [exact_all p hwf c, List.mem_map]
+      · apply nodup_map_of_inj _ _ (legalMoves_nodup _)
+        intro a ha b hb e
+        rw [← decode_codeOf p hwf a ha, ← decode_codeOf p hwf b hb, e]
+    have h1 := (hperm.map (fun c => perftModel T d (doMove T p c).1)).sum_nat
+    rw [h1, List.map_map]
+    congr 1
+    apply List.map_congr_left
+    intro m hm
+    simp only [Function.comp]
+    obtain ⟨e, hp'⟩ := refine_step T p m (stepOK_of_legal _ hwf m hm) hp (by omega)
+    rw [ih _ hp' (by rw [e]; exact wf_apply _ hwf m hm) ?_, e]
+    have : (Chess.absPos (doMove T p (codeOf (Chess.absPos p) m)).1).halfmove = (doMove T p (codeOf (Chess.absPos p) m)).1.halfmove := rfl
+    rw [← this, e, apply_half]
+    have hx : (Chess.absPos p).halfmove = p.halfmove := rfl
+    rw [hx]
+    split <;> omega
 
 /-- non-vacuity 1: the initial position (20 legal moves, all generated) -/
 def c01StartBoard : List Nat :=
